@@ -142,7 +142,7 @@ def run(ctx):
         seeds = [ctx.seed] if quick else [ctx.seed, ctx.seed + 1000, ctx.seed + 2000]
         jobs = []
         # 1. the embedded circuit against crypto/sha256 (validation) and against the Lean evaluator
-        jobs.append(("circuit", 150 if quick else 3000, ctx.seed, "", [],
+        jobs.append(("circuit", 150 if quick else 800, ctx.seed, "", [],
                      "embedded circuit: Circuit.Compute = Lean Circuit.compute (= crypto/sha256 by the oracle)"))
         # 2. full sessions: digest, restarts at every boundary, foreign session / curve
         for s in (seeds if quick else seeds[:2]):
@@ -151,7 +151,7 @@ def run(ctx):
         # 3. codec: structured payloads and mutation fuzz of every encoded message, one shard per curve
         for s in seeds:
             for cv in CURVES:
-                jobs.append(("codec", 60 if quick else 400, s, "-" + cv, ["-extra", cv],
+                jobs.append(("codec", 60 if quick else 300, s, "-" + cv, ["-extra", cv],
                              "decoder outcome classes on mutated messages, %s (seed %d)" % (cv, s)))
 
         def one(job):
@@ -160,7 +160,7 @@ def run(ctx):
             model, rc = ctx.run_drv(ops)     # the model replay runs in the worker too
             return job, ops, out, meta, model, rc
 
-        with concurrent.futures.ThreadPoolExecutor(max_workers=6) as ex:
+        with concurrent.futures.ThreadPoolExecutor(max_workers=8) as ex:
             results = list(ex.map(one, jobs))
         run_drv = ctx.run_drv
         for job, ops, out, meta, model, rc in results:
